@@ -41,6 +41,30 @@ def truthiness_uses(cls: ast.ClassDef | None, fn: ast.AST) -> list[tuple[ast.AST
             return f"self.{e.attr}"
         return None
     out = []
+    # comprehension / generator filters: `next((a for a in (x, self.y, self.z) if a), default)`
+    def seq_names(e):
+        """optional names among the elements of a literal tuple/list (directly or through one single-definition local)"""
+        if isinstance(e, ast.Name):
+            defs = [d.value for d in ast.walk(fn) if isinstance(d, ast.Assign) and len(d.targets) == 1 and isinstance(d.targets[0], ast.Name) and d.targets[0].id == e.id]
+            if len(defs) == 1:
+                e = defs[0]
+        if isinstance(e, (ast.Tuple, ast.List)):
+            return [name_of(x) for x in e.elts if name_of(x)]
+        return []
+    for n in ast.walk(fn):
+        if isinstance(n, ast.comprehension) and isinstance(n.target, ast.Name):
+            opt = seq_names(n.iter)
+            for t in n.ifs:
+                tt = t.operand if isinstance(t, ast.UnaryOp) and isinstance(t.op, ast.Not) else t
+                if opt and isinstance(tt, ast.Name) and tt.id == n.target.id:
+                    out.append((n.iter, opt[0]))
+        if isinstance(n, ast.Call) and isinstance(n.func, ast.Name) and n.func.id in ("any", "all", "filter") and n.args:
+            arg = n.args[-1]
+            if n.func.id == "filter" and not (isinstance(n.args[0], ast.Constant) and n.args[0].value is None):
+                continue
+            opt = seq_names(arg)
+            if opt and n.func.id == "filter":
+                out.append((n, opt[0]))
     for n in ast.walk(fn):
         if isinstance(n, ast.BoolOp):
             # the last operand of `or` / `and` is a value, not a test
